@@ -573,9 +573,11 @@ def Good (bnd : Bytes) (d : Decoder) (fut : Bytes) : Phase → Prop
     Plain bnd d ∧ d.state = .part ∧ d.buffer ++ fut = lfPre lf ++ afterOf bnd (p :: ps) ∧
       ∃ b0 c0, d.buffer = b0 ++ c0 ∧ searchBlank b0 = none ∧ d.searchPos = b0.length - searchExtra
   | .dataS p ps =>
-    Plain bnd d ∧ d.state = .dataStart ∧ 0 < lbLen d.buffer ∧ DataInv bnd p ps [] d.buffer fut
+    Plain bnd d ∧ d.state = .dataStart ∧ d.searchPos = 0 ∧ 0 < lbLen d.buffer ∧
+      (∃ Z, d.buffer ++ fut = 13 :: 10 :: Z) ∧ DataInv bnd p ps [] d.buffer fut
   | .dataM p ps E =>
-    Plain bnd d ∧ d.state = .data ∧ ∃ pre, pre.drop 2 = E ∧ 2 ≤ pre.length ∧ DataInv bnd p ps pre d.buffer fut
+    Plain bnd d ∧ d.state = .data ∧ d.searchPos = 0 ∧
+      ∃ pre, pre.drop 2 = E ∧ 2 ≤ pre.length ∧ DataInv bnd p ps pre d.buffer fut
   | .epi => Plain bnd d ∧ d.state = .epilogue
 
 /-- the single-shot facts about the data stretch of part `p` -/
@@ -641,7 +643,7 @@ theorem step_hdr {bnd : Bytes} (hb : BoundaryOk bnd) {d : Decoder} {fut : Bytes}
     have hsb : searchBlank d.buffer = some (L, L + 4) := searchBlank_restrict hsbW hlen
     have htake : d.buffer.take L = lfPre lf ++ hdrBlock (nameOf p) p := by
       have : (d.buffer ++ fut).take L = lfPre lf ++ hdrBlock (nameOf p) p := by
-        rw [hW, ← List.append_assoc]; simp [L]
+        rw [hW, ← List.append_assoc]; exact List.take_left' (by simp [L])
       rw [List.take_append_of_le_length (by omega)] at this
       exact this
     have hparse : parseHeaders (lfPre lf ++ hdrBlock (nameOf p) p) =
@@ -673,17 +675,17 @@ theorem step_hdr {bnd : Bytes} (hb : BoundaryOk bnd) {d : Decoder} {fut : Bytes}
       simp only
       rw [lookup_name, lookup_filename, hhalf, hmp]
       cases hfn : p.filename with
-      | none => simp [partHeadEvent, decodedPart, hfn, hnm, d']
-      | some x => simp [partHeadEvent, decodedPart, hfn, hnm, d']
+      | none => simp [partHeadEvent, decodedPart, hfn, hnm, d', hmp]
+      | some x => simp [partHeadEvent, decodedPart, hfn, hnm, d', hmp]
     refine ⟨d', ?_, ?_⟩
     · unfold nextEvent
       rw [hstep, hcomp]
       cases hfn : p.filename with
       | none => simp [partHeadEvent, decodedPart, hfn]
       | some x => simp [partHeadEvent, decodedPart, hfn]
-    · refine ⟨⟨hbn, hcomp, hmm, hmp⟩, rfl, ?_, ?_⟩
+    · have hpre : d'.buffer ++ fut = 13 :: 10 :: Z := by simp only [d']; rw [hdrop, hdZ]
+      refine ⟨⟨hbn, hcomp, hmm, hmp⟩, rfl, rfl, ?_, ⟨Z, hpre⟩, ?_⟩
       · -- the new buffer starts with CRLF
-        have hpre : d'.buffer ++ fut = 13 :: 10 :: Z := by simp only [d']; rw [hdrop, hdZ]
         have h2 : 2 ≤ d'.buffer.length := by simp [d']; omega
         match hbuf : d'.buffer, h2 with
         | x :: y :: t, _ =>
@@ -712,6 +714,9 @@ theorem step_hdr {bnd : Bytes} (hb : BoundaryOk bnd) {d : Decoder} {fut : Bytes}
       rw [hst]
       simp only
       rw [hfrom, hnone]
+      simp only [d']
+      congr 2
+      cases d; simp_all
     refine ⟨d', ?_, ⟨⟨hbn, hcomp, hmm, hmp⟩, hst, hcat, d.buffer, [], by simp [d'], hnone, rfl⟩, ?_⟩
     · unfold nextEvent; rw [hstep, hcomp]; simp
     · intro hfe
@@ -720,5 +725,487 @@ theorem step_hdr {bnd : Bytes} (hb : BoundaryOk bnd) {d : Decoder} {fut : Bytes}
       simp at this
       simp [L] at hlen
       omega
+
+/-- what comes after the delimiter that ends a part -/
+def GoodNext (bnd : Bytes) (d : Decoder) (fut : Bytes) : List Part → Prop
+  | [] => Good bnd d fut .epi
+  | p :: ps => ∃ lf, Good bnd d fut (.hdr lf p ps)
+
+/-- a delimiter recognised in the buffer: it is the one that ends the part -/
+theorem decision_next {bnd : Bytes} (hb : BoundaryOk bnd) {d : Decoder} {fut pre : Bytes} {p : Part}
+    {ps : List Part} (hpl : Plain bnd d) (hsp : d.searchPos = 0)
+    (hinv : DataInv bnd p ps pre d.buffer fut) {s1 e1 : Nat} {f1 : Bool}
+    (hs : searchDelim bnd false d.buffer = some (s1, e1, f1)) :
+    f1 = ps.isEmpty ∧ (pre ++ d.buffer.take s1).drop 2 = p.payload ∧
+      GoodNext bnd { d with buffer := d.buffer.drop e1, state := afterDelim f1 } fut ps := by
+  rcases hinv with ⟨s0, e0, h1, h2, h3⟩
+  rcases searchDelim_append_stable hb hs fut with ⟨e1', hst, hrel⟩
+  rw [h1] at hst
+  simp only [Option.some.injEq, Prod.mk.injEq] at hst
+  rcases hst with ⟨rfl, rfl, hF⟩
+  have hbd := searchDelim_bounds hs
+  refine ⟨hF.symm, ?_, ?_⟩
+  · rw [List.take_append_of_le_length (by omega)] at h2; exact h2
+  · cases ps with
+    | nil =>
+      simp only [List.isEmpty_nil] at hF
+      subst hF
+      exact ⟨hpl, rfl⟩
+    | cons p' ps' =>
+      simp only [List.isEmpty_cons] at hF
+      subst hF
+      rcases hrel rfl with he | ⟨he, hlen, c', hc⟩
+      · refine ⟨false, hpl, rfl, ?_, [], d.buffer.drop e1, by simp, by simp [searchBlank], by simp [hsp]⟩
+        simp only [lfPre, Bool.false_eq_true, if_false, List.nil_append]
+        rw [← h3, he, List.drop_append_of_le_length hbd.2]
+      · refine ⟨true, hpl, rfl, ?_, [], d.buffer.drop e1, by simp, by simp [searchBlank], by simp [hsp]⟩
+        simp only [lfPre, if_true]
+        have hd0 : d.buffer.drop e1 = [] := by rw [← hlen]; simp
+        simp only [hd0, List.nil_append, hc]
+        rw [← h3, he, hc, ← hlen]
+        have := drop_add_append d.buffer (10 :: c') 1
+        rw [Nat.add_comm] at this
+        rw [this]; rfl
+
+/-- a hold-back release keeps the invariant -/
+theorem hold_next {bnd : Bytes} {pre buf fut : Bytes} {p : Part} {ps : List Part} {k : Nat}
+    (hinv : DataInv bnd p ps pre buf fut) (hk : k ≤ buf.length)
+    (hsafe : searchDelim bnd false (buf ++ fut) = shift k (searchDelim bnd false (buf.drop k ++ fut))) :
+    DataInv bnd p ps (pre ++ buf.take k) (buf.drop k) fut := by
+  rcases hinv with ⟨s0, e0, h1, h2, h3⟩
+  rw [h1] at hsafe
+  rcases shift_eq_some hsafe.symm with ⟨s2, e2, hs2, rfl, rfl⟩
+  refine ⟨s2, e2, hs2, ?_, ?_⟩
+  · rw [← h2]
+    congr 1
+    have hsplit : buf ++ fut = buf.take k ++ (buf.drop k ++ fut) := by
+      rw [← List.append_assoc, List.take_append_drop]
+    rw [hsplit]
+    have hlen : (buf.take k).length = k := by simp [Nat.min_eq_left hk]
+    have := take_add_append (buf.take k) (buf.drop k ++ fut) s2
+    rw [hlen] at this
+    rw [this]; simp
+  · rw [← h3]
+    have hsplit : buf ++ fut = buf.take k ++ (buf.drop k ++ fut) := by
+      rw [← List.append_assoc, List.take_append_drop]
+    rw [hsplit]
+    have hlen : (buf.take k).length = k := by simp [Nat.min_eq_left hk]
+    have := drop_add_append (buf.take k) (buf.drop k ++ fut) e2
+    rw [hlen] at this
+    rw [this]
+
+theorem nextEvent_data_eq {d : Decoder} (hc : d.complete = false) (hst : d.state = .data) :
+    nextEvent d = stepData d false ∨ ∃ d', stepData d false = .ok (.needData, d') ∧ nextEvent d = .ok (.needData, d') := by
+  unfold nextEvent step
+  rw [hst]
+  simp only
+  cases hs : stepData d false with
+  | error e => left; rfl
+  | ok v => rcases v with ⟨ev, d'⟩; left; simp [hc]
+
+theorem nextEvent_of_step {d d' : Decoder} {ev : Event} (hc : d.complete = false)
+    (h : step d = .ok (ev, d')) : nextEvent d = .ok (ev, d') := by
+  unfold nextEvent; rw [h, hc]; simp
+
+/-- one `next_event` in the DATA phase, on any prefix of the stream -/
+theorem step_dataM {bnd : Bytes} (hb : BoundaryOk bnd) {d : Decoder} {fut : Bytes} {p : Part}
+    {ps : List Part} {E : Bytes} (hg : Good bnd d fut (.dataM p ps E)) :
+    (∃ d', nextEvent d = .ok (.needData, d') ∧ Good bnd d' fut (.dataM p ps E) ∧ fut ≠ []) ∨
+    (∃ x d', nextEvent d = .ok (.data x true, d') ∧ Good bnd d' fut (.dataM p ps (E ++ x))) ∨
+    (∃ x d', E ++ x = p.payload ∧ nextEvent d = .ok (.data x false, d') ∧ GoodNext bnd d' fut ps) := by
+  rcases hg with ⟨hpl, hst, hsp, pre, hE, hpre2, hinv⟩
+  have hpl' := hpl
+  rcases hpl with ⟨hbn, hcomp, hmm, hmp⟩
+  cases hs : searchDelim bnd false d.buffer with
+  | some v =>
+    rcases v with ⟨s1, e1, f1⟩
+    right; right
+    rcases decision_next hb hpl' hsp hinv hs with ⟨hf, hpay, hnext⟩
+    refine ⟨d.buffer.take s1, { d with buffer := d.buffer.drop e1, state := afterDelim f1 }, ?_, ?_, hnext⟩
+    · rw [← hpay, List.drop_append_of_le_length hpre2, hE]
+    · apply nextEvent_of_step hcomp
+      unfold step
+      rw [hst]
+      simp only [stepData, hbn, dataStep_false, dataCut_of_search hs]
+      simp
+  | none =>
+    rcases dataCut_of_no_search hb hs with ⟨k, hk, hkle, _, hsafe⟩
+    have hinv' := hold_next hinv hkle (hsafe fut)
+    cases hx : (d.buffer.take k).isEmpty with
+    | true =>
+      left
+      have hnil : d.buffer.take k = [] := by simpa using hx
+      have hdrop : d.buffer.drop k = d.buffer := by
+        have h2 := List.take_append_drop k d.buffer
+        rw [hnil] at h2; simpa using h2
+      refine ⟨{ d with buffer := d.buffer.drop k, state := .data }, ?_, ?_, ?_⟩
+      · apply nextEvent_of_step hcomp
+        unfold step
+        rw [hst]
+        simp only [stepData, hbn, dataStep_false, hk, hx]
+        simp
+      · refine ⟨hpl', rfl, hsp, pre, hE, hpre2, ?_⟩
+        rw [hnil, List.append_nil] at hinv'
+        exact hinv'
+      · intro hfe
+        rcases hinv with ⟨s0, e0, h1, _, _⟩
+        rw [hfe, List.append_nil, hs] at h1; simp at h1
+    | false =>
+      right; left
+      refine ⟨d.buffer.take k, { d with buffer := d.buffer.drop k, state := .data }, ?_, ?_⟩
+      · apply nextEvent_of_step hcomp
+        unfold step
+        rw [hst]
+        simp only [stepData, hbn, dataStep_false, hk, hx]
+        simp
+      · refine ⟨hpl', rfl, hsp, pre ++ d.buffer.take k, ?_, by simp; omega, hinv'⟩
+        rw [List.drop_append_of_le_length hpre2, hE]
+
+theorem lbLen_of_crlf_prefix {b fut Z : Bytes} (h : b ++ fut = 13 :: 10 :: Z) (h2 : 2 ≤ b.length) :
+    lbLen b = 2 := by
+  match b, h2 with
+  | x :: y :: t, _ =>
+    simp at h
+    rw [h.1, h.2.1]; simp [lbLen]
+
+/-- one `next_event` in the DATA_START phase, on any prefix of the stream -/
+theorem step_dataS {bnd : Bytes} (hb : BoundaryOk bnd) {d : Decoder} {fut : Bytes} {p : Part}
+    {ps : List Part} (hg : Good bnd d fut (.dataS p ps)) :
+    (nextEvent d = .ok (.needData, d) ∧ fut ≠ []) ∨
+    (∃ x d', nextEvent d = .ok (.data x true, d') ∧ Good bnd d' fut (.dataM p ps x)) ∨
+    (∃ d', nextEvent d = .ok (.data p.payload false, d') ∧ GoodNext bnd d' fut ps) := by
+  rcases hg with ⟨hpl, hst, hsp, hlb, ⟨Z, hZ⟩, hinv⟩
+  have hpl' := hpl
+  rcases hpl with ⟨hbn, hcomp, hmm, hmp⟩
+  cases hs : searchDelim bnd false d.buffer with
+  | some v =>
+    rcases v with ⟨s1, e1, f1⟩
+    right; right
+    rcases decision_next hb hpl' hsp hinv hs with ⟨hf, hpay, hnext⟩
+    have hbd := searchDelim_bounds hs
+    have he0 : e1 ≠ 0 := by omega
+    have hlb2 : lbLen d.buffer = 2 := lbLen_of_crlf_prefix hZ (searchDelim_some_two_le hs)
+    refine ⟨{ d with buffer := d.buffer.drop e1, state := afterDelim f1 }, ?_, hnext⟩
+    apply nextEvent_of_step hcomp
+    unfold step
+    rw [hst]
+    simp only [stepData, hbn, dataStep_true hlb, dataCut_of_search hs, he0, if_false]
+    rw [hlb2]
+    simp only [List.nil_append] at hpay
+    rw [hpay]
+    simp
+  | none =>
+    rcases dataCut_of_no_search hb hs with ⟨k, hk, hkle, hkk, hsafe⟩
+    by_cases hk0 : k = 0
+    · left
+      subst hk0
+      constructor
+      · apply nextEvent_of_step hcomp
+        unfold step
+        rw [hst]
+        simp only [stepData, hbn, dataStep_true hlb, hk, if_true]
+        congr 2
+        cases d; simp_all
+      · intro hfe
+        rcases hinv with ⟨s0, e0, h1, _, _⟩
+        rw [hfe, List.append_nil, hs] at h1; simp at h1
+    · right; left
+      have hlbk := lb_le_hold hlb (by omega) hkk
+      have hlb2 : lbLen d.buffer = 2 := by
+        rw [← hlbk.2 fut, hZ]; exact lbLen_crlf Z
+      have hinv' := hold_next hinv hkle (hsafe fut)
+      refine ⟨(d.buffer.take k).drop 2, { d with buffer := d.buffer.drop k, state := .data }, ?_, ?_⟩
+      · apply nextEvent_of_step hcomp
+        unfold step
+        rw [hst]
+        simp only [stepData, hbn, dataStep_true hlb, hk, hk0, if_false]
+        rw [hlb2]
+        simp
+      · refine ⟨hpl', rfl, hsp, d.buffer.take k, rfl, ?_, ?_⟩
+        · have := hlbk.1
+          simp [List.length_take]; omega
+        · simpa using hinv'
+
+theorem step_epi {bnd : Bytes} {d : Decoder} {fut : Bytes} (hg : Good bnd d fut .epi) :
+    nextEvent d = .ok (.needData, d) := by
+  rcases hg with ⟨⟨_, hcomp, _, _⟩, hst⟩
+  apply nextEvent_of_step hcomp
+  unfold step
+  rw [hst]
+  simp [hcomp]
+
+/-! ### accounting: what `partsOf` makes of the events -/
+
+/-- the accumulator of `partsGo` that a phase expects -/
+def CurOk : Phase → Option Part → Prop
+  | .hdr _ _ _, _ => True
+  | .dataS p _, cur => cur = some { decodedPart p with payload := [] }
+  | .dataM p _ E, cur => cur = some { decodedPart p with payload := E }
+  | .epi, _ => True
+
+/-- what `partsGo` will have produced at the end -/
+def Exp : Phase → Option Part → List Part
+  | .hdr _ p ps, cur => cur.toList ++ (p :: ps).map decodedPart
+  | .dataS p ps, _ => (p :: ps).map decodedPart
+  | .dataM p ps _, _ => (p :: ps).map decodedPart
+  | .epi, cur => cur.toList
+
+/-- the events `evs` take the accounting from phase `ph` to phase `ph'` -/
+def Acct (ph ph' : Phase) (evs : List Event) : Prop :=
+  ∀ cur, CurOk ph cur → ∃ cur' out, CurOk ph' cur' ∧
+    (∀ rest, partsGo cur (evs ++ rest) = out ++ partsGo cur' rest) ∧ Exp ph cur = out ++ Exp ph' cur'
+
+theorem Acct.refl (ph : Phase) : Acct ph ph [] :=
+  fun cur h => ⟨cur, [], h, fun _ => rfl, rfl⟩
+
+theorem Acct.trans {a b c : Phase} {e1 e2 : List Event} (h1 : Acct a b e1) (h2 : Acct b c e2) :
+    Acct a c (e1 ++ e2) := by
+  intro cur hc
+  rcases h1 cur hc with ⟨cur1, out1, hc1, hp1, hx1⟩
+  rcases h2 cur1 hc1 with ⟨cur2, out2, hc2, hp2, hx2⟩
+  refine ⟨cur2, out1 ++ out2, hc2, ?_, ?_⟩
+  · intro rest
+    rw [List.append_assoc, hp1, hp2, List.append_assoc]
+  · rw [hx1, hx2, List.append_assoc]
+
+/-- the parts of a phase are valid -/
+def PhaseValid (bnd : Bytes) : Phase → Prop
+  | .hdr _ p ps => ValidPart bnd p ∧ ∀ q ∈ ps, ValidPart bnd q
+  | .dataS p ps => ValidPart bnd p ∧ ∀ q ∈ ps, ValidPart bnd q
+  | .dataM p ps _ => ValidPart bnd p ∧ ∀ q ∈ ps, ValidPart bnd q
+  | .epi => True
+
+theorem acct_head {bnd : Bytes} {lf : Bool} {p : Part} {ps : List Part} (hv : ValidPart bnd p) :
+    Acct (.hdr lf p ps) (.dataS p ps) [partHeadEvent (decodedPart p)] := by
+  intro cur _
+  have hf := validPart_facts hv
+  refine ⟨some { decodedPart p with payload := [] }, cur.toList, rfl, ?_, rfl⟩
+  intro rest
+  cases hfn : p.filename with
+  | none =>
+    have hfile : p.isFile = false := by rw [hf.2.2.2.1, hfn]; rfl
+    simp [partHeadEvent, decodedPart, hfn, partsGo, hfile]
+  | some f =>
+    have hfile : p.isFile = true := by rw [hf.2.2.2.1, hfn]; rfl
+    simp [partHeadEvent, decodedPart, hfn, partsGo, hfile]
+
+theorem acct_dataS_more {p : Part} {ps : List Part} {x : Bytes} :
+    Acct (.dataS p ps) (.dataM p ps x) [.data x true] := by
+  intro cur hc
+  simp only [CurOk] at hc
+  subst hc
+  exact ⟨some { decodedPart p with payload := x }, [], rfl, fun rest => by simp [partsGo], rfl⟩
+
+theorem acct_dataM_more {p : Part} {ps : List Part} {E x : Bytes} :
+    Acct (.dataM p ps E) (.dataM p ps (E ++ x)) [.data x true] := by
+  intro cur hc
+  simp only [CurOk] at hc
+  subst hc
+  exact ⟨some { decodedPart p with payload := E ++ x }, [], rfl, fun rest => by simp [partsGo], rfl⟩
+
+/-- the phase after the last Data event of a part -/
+def nextPhaseOk (ph' : Phase) (ps : List Part) : Prop :=
+  match ps with
+  | [] => ph' = .epi
+  | p' :: ps' => ∃ lf, ph' = .hdr lf p' ps'
+
+theorem acct_last {p : Part} {ps : List Part} {ph ph' : Phase} {E x : Bytes}
+    (hph : ph = .dataS p ps ∧ E = [] ∨ ph = .dataM p ps E) (hx : E ++ x = p.payload)
+    (hn : nextPhaseOk ph' ps) : Acct ph ph' [.data x false] := by
+  intro cur hc
+  have hcur : cur = some { decodedPart p with payload := E } := by
+    rcases hph with ⟨rfl, rfl⟩ | rfl <;> simpa [CurOk] using hc
+  subst hcur
+  have hq : ({ decodedPart p with payload := E ++ x } : Part) = decodedPart p := by
+    rw [hx]; rfl
+  have hexp : Exp ph (some { decodedPart p with payload := E }) = (p :: ps).map decodedPart := by
+    rcases hph with ⟨rfl, _⟩ | rfl <;> rfl
+  cases ps with
+  | nil =>
+    simp only [nextPhaseOk] at hn
+    subst hn
+    refine ⟨some (decodedPart p), [], trivial, ?_, ?_⟩
+    · intro rest; simp [partsGo, hq]
+    · rw [hexp]; simp [Exp]
+  | cons p' ps' =>
+    rcases hn with ⟨lf, rfl⟩
+    refine ⟨some (decodedPart p), [], trivial, ?_, ?_⟩
+    · intro rest; simp [partsGo, hq]
+    · rw [hexp]; simp [Exp]
+
+theorem goodNext_phase {bnd : Bytes} {d : Decoder} {fut : Bytes} {ps : List Part}
+    (h : GoodNext bnd d fut ps) (hv : ∀ q ∈ ps, ValidPart bnd q) :
+    ∃ ph', Good bnd d fut ph' ∧ PhaseValid bnd ph' ∧ nextPhaseOk ph' ps := by
+  cases ps with
+  | nil => exact ⟨.epi, h, trivial, rfl⟩
+  | cons p' ps' =>
+    rcases h with ⟨lf, hg⟩
+    exact ⟨.hdr lf p' ps', hg, ⟨hv p' (by simp), fun q hq => hv q (by simp [hq])⟩, lf, rfl⟩
+
+theorem shrink_step {d d1 : Decoder} {ev : Event} {n : Nat} (hn : nextEvent d = .ok (ev, d1))
+    (hne : ev ≠ .needData) (hep : ∀ x, ev ≠ .epilogue x) (hle : d.buffer.length ≤ n) :
+    ∃ k, n = k + 1 ∧ d1.buffer.length ≤ k := by
+  have := nextEvent_consumes hn hne hep
+  cases n with
+  | zero => omega
+  | succ k => exact ⟨k, rfl, by omega⟩
+
+/-- **draining keeps the run on track**: from any good configuration, `drain` delivers events that
+account for the expected parts and stops in a good configuration; when nothing more is to come it
+stops after the closing delimiter. -/
+theorem drain_good {bnd : Bytes} (hb : BoundaryOk bnd) (fut : Bytes) :
+    ∀ (n : Nat) (d : Decoder) (ph : Phase) (acc : List Event), d.buffer.length ≤ n →
+      Good bnd d fut ph → PhaseValid bnd ph →
+      ∃ evs d' ph', DrainsOk d acc evs d' ∧ Good bnd d' fut ph' ∧ PhaseValid bnd ph' ∧ Acct ph ph' evs ∧
+        (fut = [] → ph' = .epi) := by
+  intro n
+  induction n with
+  | zero =>
+    intro d ph acc hle hg hv
+    cases ph with
+    | epi => exact ⟨[], d, .epi, DrainsOk.stop acc (step_epi hg), hg, trivial, Acct.refl _, fun _ => rfl⟩
+    | hdr lf p ps =>
+      rcases step_hdr hb hv.1 hg with ⟨d', h1, h2, h3⟩ | ⟨d', h1, _⟩
+      · exact ⟨[], d', _, DrainsOk.stop acc h1, h2, hv, Acct.refl _, fun h => absurd h h3⟩
+      · rcases shrink_step h1 (by unfold partHeadEvent; split <;> simp) (by unfold partHeadEvent; intro x; split <;> simp) hle
+          with ⟨k, hk, _⟩
+        omega
+    | dataS p ps =>
+      rcases step_dataS hb hg with ⟨h1, h3⟩ | ⟨x, d', h1, _⟩ | ⟨d', h1, _⟩
+      · exact ⟨[], d, _, DrainsOk.stop acc h1, hg, hv, Acct.refl _, fun h => absurd h h3⟩
+      · rcases shrink_step h1 (by simp) (by simp) hle with ⟨k, hk, _⟩; omega
+      · rcases shrink_step h1 (by simp) (by simp) hle with ⟨k, hk, _⟩; omega
+    | dataM p ps E =>
+      rcases step_dataM hb hg with ⟨d', h1, h2, h3⟩ | ⟨x, d', h1, _⟩ | ⟨x, d', _, h1, _⟩
+      · exact ⟨[], d', _, DrainsOk.stop acc h1, h2, hv, Acct.refl _, fun h => absurd h h3⟩
+      · rcases shrink_step h1 (by simp) (by simp) hle with ⟨k, hk, _⟩; omega
+      · rcases shrink_step h1 (by simp) (by simp) hle with ⟨k, hk, _⟩; omega
+  | succ n ih =>
+    intro d ph acc hle hg hv
+    cases ph with
+    | epi => exact ⟨[], d, .epi, DrainsOk.stop acc (step_epi hg), hg, trivial, Acct.refl _, fun _ => rfl⟩
+    | hdr lf p ps =>
+      rcases step_hdr hb hv.1 hg with ⟨d', h1, h2, h3⟩ | ⟨d', h1, h2⟩
+      · exact ⟨[], d', _, DrainsOk.stop acc h1, h2, hv, Acct.refl _, fun h => absurd h h3⟩
+      · rcases shrink_step h1 (by unfold partHeadEvent; split <;> simp) (by unfold partHeadEvent; intro x; split <;> simp) hle
+          with ⟨k, hk, hle'⟩
+        have hk' : k = n := by omega
+        subst hk'
+        rcases ih d' (.dataS p ps) (partHeadEvent (decodedPart p) :: acc) hle' h2 hv with
+          ⟨evs, d2, ph2, hd, hg2, hv2, ha, hf⟩
+        exact ⟨_, d2, ph2, DrainsOk.step_head h1 hd, hg2, hv2, Acct.trans (acct_head hv.1) ha, hf⟩
+    | dataS p ps =>
+      rcases step_dataS hb hg with ⟨h1, h3⟩ | ⟨x, d', h1, h2⟩ | ⟨d', h1, h2⟩
+      · exact ⟨[], d, _, DrainsOk.stop acc h1, hg, hv, Acct.refl _, fun h => absurd h h3⟩
+      · rcases shrink_step h1 (by simp) (by simp) hle with ⟨k, hk, hle'⟩
+        have hk' : k = n := by omega
+        subst hk'
+        rcases ih d' (.dataM p ps x) (.data x true :: acc) hle' h2 hv with ⟨evs, d2, ph2, hd, hg2, hv2, ha, hf⟩
+        exact ⟨_, d2, ph2, DrainsOk.step_data h1 hd, hg2, hv2, Acct.trans acct_dataS_more ha, hf⟩
+      · rcases shrink_step h1 (by simp) (by simp) hle with ⟨k, hk, hle'⟩
+        have hk' : k = n := by omega
+        subst hk'
+        rcases goodNext_phase h2 hv.2 with ⟨ph1, hg1, hv1, hn1⟩
+        rcases ih d' ph1 (.data p.payload false :: acc) hle' hg1 hv1 with ⟨evs, d2, ph2, hd, hg2, hv2, ha, hf⟩
+        exact ⟨_, d2, ph2, DrainsOk.step_data h1 hd, hg2, hv2,
+          Acct.trans (acct_last (E := []) (Or.inl ⟨rfl, rfl⟩) (by simp) hn1) ha, hf⟩
+    | dataM p ps E =>
+      rcases step_dataM hb hg with ⟨d', h1, h2, h3⟩ | ⟨x, d', h1, h2⟩ | ⟨x, d', hx, h1, h2⟩
+      · exact ⟨[], d', _, DrainsOk.stop acc h1, h2, hv, Acct.refl _, fun h => absurd h h3⟩
+      · rcases shrink_step h1 (by simp) (by simp) hle with ⟨k, hk, hle'⟩
+        have hk' : k = n := by omega
+        subst hk'
+        rcases ih d' (.dataM p ps (E ++ x)) (.data x true :: acc) hle' h2 hv with
+          ⟨evs, d2, ph2, hd, hg2, hv2, ha, hf⟩
+        exact ⟨_, d2, ph2, DrainsOk.step_data h1 hd, hg2, hv2, Acct.trans acct_dataM_more ha, hf⟩
+      · rcases shrink_step h1 (by simp) (by simp) hle with ⟨k, hk, hle'⟩
+        have hk' : k = n := by omega
+        subst hk'
+        rcases goodNext_phase h2 hv.2 with ⟨ph1, hg1, hv1, hn1⟩
+        rcases ih d' ph1 (.data x false :: acc) hle' hg1 hv1 with ⟨evs, d2, ph2, hd, hg2, hv2, ha, hf⟩
+        exact ⟨_, d2, ph2, DrainsOk.step_data h1 hd, hg2, hv2,
+          Acct.trans (acct_last (Or.inr rfl) hx hn1) ha, hf⟩
+
+/-! ### chunk after chunk -/
+
+theorem good_receive {bnd : Bytes} {d : Decoder} {c fut : Bytes} {ph : Phase}
+    (hg : Good bnd d (c ++ fut) ph) :
+    ∃ d1, receive d (some c) = .ok d1 ∧ Good bnd d1 fut ph := by
+  have hpl : Plain bnd d := by cases ph <;> exact hg.1
+  rcases hpl with ⟨hbn, hcomp, hmm, hmp⟩
+  refine ⟨{ d with buffer := d.buffer ++ c }, by simp [receive, hmm], ?_⟩
+  cases ph with
+  | epi => exact ⟨⟨hbn, hcomp, hmm, hmp⟩, hg.2⟩
+  | hdr lf p ps =>
+    rcases hg with ⟨_, hst, hcat, b0, c0, hbc, hb0, hpos⟩
+    exact ⟨⟨hbn, hcomp, hmm, hmp⟩, hst, by simpa using hcat, b0, c0 ++ c, by simp [hbc], hb0, hpos⟩
+  | dataS p ps =>
+    rcases hg with ⟨_, hst, hsp, hlb, ⟨Z, hZ⟩, hinv⟩
+    refine ⟨⟨hbn, hcomp, hmm, hmp⟩, hst, hsp, Nat.lt_of_lt_of_le hlb (lbLen_append_ge _ _),
+      ⟨Z, by simpa using hZ⟩, ?_⟩
+    rcases hinv with ⟨s0, e0, h1, h2, h3⟩
+    exact ⟨s0, e0, by simpa using h1, by simpa using h2, by simpa using h3⟩
+  | dataM p ps E =>
+    rcases hg with ⟨_, hst, hsp, pre, hE, hp2, hinv⟩
+    refine ⟨⟨hbn, hcomp, hmm, hmp⟩, hst, hsp, pre, hE, hp2, ?_⟩
+    rcases hinv with ⟨s0, e0, h1, h2, h3⟩
+    exact ⟨s0, e0, by simpa using h1, by simpa using h2, by simpa using h3⟩
+
+theorem feed_none_epi {bnd : Bytes} {d : Decoder} (hg : Good bnd d [] .epi) :
+    feed d none = { events := [.epilogue d.buffer], err := none,
+                    dec := { d with complete := true, buffer := [], state := .complete } } := by
+  rcases hg with ⟨⟨_, hcomp, _, _⟩, hst⟩
+  have hn : nextEvent { d with complete := true } =
+      .ok (.epilogue d.buffer, { d with complete := true, buffer := [], state := .complete }) := by
+    simp [nextEvent, step, hst]
+  simp [feed, receive, drainFuel, drain_succ, hn]
+
+theorem feedAll_good {bnd : Bytes} (hb : BoundaryOk bnd) (chunks : List Bytes) :
+    ∀ (d : Decoder) (ph : Phase), Good bnd d chunks.flatten ph → PhaseValid bnd ph →
+      (chunks.flatten = [] → ph = .epi) → ∀ cur, CurOk ph cur →
+      (feedAll d chunks).err = none ∧ partsGo cur (feedAll d chunks).events = Exp ph cur := by
+  induction chunks with
+  | nil =>
+    intro d ph hg hv hepi cur hc
+    have := hepi rfl
+    subst this
+    simp only [feedAll, List.flatten_nil] at hg ⊢
+    rw [feed_none_epi hg]
+    exact ⟨rfl, by cases cur <;> simp [partsGo, Exp]⟩
+  | cons c cs ih =>
+    intro d ph hg hv hepi cur hc
+    simp only [List.flatten_cons] at hg
+    rcases good_receive hg with ⟨d1, hr, hg1⟩
+    rcases drain_good hb cs.flatten d1.buffer.length d1 ph [] (Nat.le_refl _) hg1 hv with
+      ⟨evs, d2, ph2, hd, hg2, hv2, ha, hf⟩
+    have hfeed := DrainsOk.toFeed hr hd
+    rcases ha cur hc with ⟨cur2, out, hc2, hp, hx⟩
+    rcases ih d2 ph2 hg2 hv2 hf cur2 hc2 with ⟨herr, hparts⟩
+    simp only [feedAll, hfeed]
+    exact ⟨herr, by rw [hp, hparts, hx]⟩
+
+/-- **chunk independence on encoder output, from the first header block on** -/
+theorem decode_chunks_lemma {bnd : Bytes} (hb : BoundaryOk bnd) (ps : List Part)
+    (hv : ∀ p ∈ ps, ValidPart bnd p) (chunks : List Bytes) (hjoin : chunks.flatten = afterOf bnd ps) :
+    (feedAll (mkD bnd [] (afterDelim ps.isEmpty) 0) chunks).err = none ∧
+    partsOf (feedAll (mkD bnd [] (afterDelim ps.isEmpty) 0) chunks).events = ps.map decodedPart := by
+  cases ps with
+  | nil =>
+    have hg : Good bnd (mkD bnd [] (afterDelim ([] : List Part).isEmpty) 0) chunks.flatten .epi :=
+      ⟨⟨rfl, rfl, rfl, rfl⟩, rfl⟩
+    have := feedAll_good hb chunks _ .epi hg trivial (fun _ => rfl) none trivial
+    simpa [partsOf, Exp] using this
+  | cons p ps =>
+    have hg : Good bnd (mkD bnd [] (afterDelim (p :: ps).isEmpty) 0) chunks.flatten (.hdr false p ps) := by
+      refine ⟨⟨rfl, rfl, rfl, rfl⟩, rfl, by simp [mkD, lfPre, hjoin], [], [], rfl, by simp [searchBlank], by simp [mkD]⟩
+    have hne : chunks.flatten = [] → Phase.hdr false p ps = .epi := by
+      intro h0
+      rw [hjoin] at h0
+      rcases hdrBlock_head (nameOf p) p with ⟨r, hr⟩
+      rw [afterOf_cons, hr] at h0
+      simp at h0
+    have := feedAll_good hb chunks _ (.hdr false p ps) hg
+      ⟨hv p (by simp), fun q hq => hv q (by simp [hq])⟩ hne none trivial
+    simpa [partsOf, Exp] using this
 
 end Wz.Multipart
